@@ -46,8 +46,56 @@ def decode_both(vendor: str, case):
     return out
 
 
+_previous = {}
+
+
+def _rejected_first(case, ctx) -> None:
+    """Every third case is preceded by damaged relatives of the previous message of the same meter (an element of another type at a
+    register / clock position, octets changed, inserted, removed, the list cut short): whatever the decoder does with them - most
+    make it raise half-way - must leave no trace in the decode that follows."""
+    import random
+
+    from vf.gen import pool
+
+    prev = _previous.get(case.vendor)
+    _previous[case.vendor] = case
+    if prev is None or _cases % 3 != 1:
+        return
+    rng = random.Random(_cases)
+    mod = importlib.import_module(f"han.{case.vendor}")
+    for k in range(6):
+        # (the last two are damaged copies of the very message that is decoded next: line noise first, then the intact retransmission)
+        which = prev if k < 4 else case
+        src = which.body if k % 2 == 0 else which.frame
+        if k >= 4:
+            junk = src[: rng.randrange(max(1, len(src) - 12), len(src))] if rng.random() < 0.5 else src[:-1] + bytes((src[-1] ^ 0x55,)) + b"\x00"
+            try:
+                (mod.decode_notification_body if k % 2 == 0 else mod.decode_frame_content)(junk)
+            except Exception:
+                pass
+            ctx.count("damaged_relatives_decoded_before_a_case")
+            continue
+        if k < 2:
+            # a well-formed value of another type where a register or the clock is expected: the list still parses, normalising it may not
+            b = bytearray(src)
+            idx = [i for i in range(len(b) - 5) if b[i] == 0x06] + [i for i in range(len(b) - 13) if b[i] == 0x09 and b[i + 1] == 0x0C]
+            if idx:
+                i = rng.choice(idx)
+                width = 5 if b[i] == 0x06 else 14
+                b[i : i + width] = rng.choice((b"\x09\x03abc", b"\x0a\x02xy", b"\x06\x00\x00\x00\x07", b"\x12\x00\x07", b"\x09\x00"))
+            junk = bytes(b)
+        else:
+            junk = pool.mutate(rng, src)[0]
+        try:
+            (mod.decode_notification_body if k % 2 == 0 else mod.decode_frame_content)(junk)
+        except Exception:
+            pass
+        ctx.count("damaged_relatives_decoded_before_a_case")
+
+
 def check_case(prop: str, case, ctx, extra_tag: str = "") -> bool:
     """Returns True when every compared field agreed."""
+    _rejected_first(case, ctx)
     res = decode_both(case.vendor, case)
     ok = True
     wit = {"vendor": case.vendor, "layout": case.layout, "body": case.body, "frame": case.frame,
